@@ -47,15 +47,15 @@ def run_corpus(ctx, mod, prop: str) -> None:
     for k, cases in by_kind.items():
         # an input that was recorded on a CHANGED tree may not even be expressible on this one (a device type that only the change
         # had, say): such an entry is skipped - the corpus exists to re-run known failing inputs, never to raise an alarm of its own
-        usable = []
+        usable, outs = [], []
         for a in cases:
             try:
-                mod.KINDS[k].impl(a)
+                outs.append(mod.KINDS[k].impl(a))          # run ONCE: this is the observation that is compared and judged
                 usable.append(a)
             except Exception as e:  # noqa
                 ctx.notes.append(f"corpus entry of kind {k} skipped: not expressible on this tree ({type(e).__name__})")
         if usable:
-            ctx.run_cases(mod.KINDS[k], f"corpus:{k}", usable, exhaustive=True)
+            ctx.run_cases(mod.KINDS[k], f"corpus:{k}", usable, exhaustive=True, outs=outs)
 
 
 def write_replay(prop: str, seed: int, payload: dict) -> str:
